@@ -16,6 +16,7 @@ import (
 	"github.com/unravelin/null/v5"
 
 	"verifharness/core"
+	"verifharness/gen"
 	"verifharness/lib"
 	"verifharness/refavro"
 )
@@ -97,6 +98,42 @@ type c20kind struct {
 	skip    func(r *avro.ReadBuf) error
 	session func(w *bytes.Buffer, comp avro.Compression, bs int) (lib.Session, error)
 	holder  reflect.Type
+	// mkCodec: the codec the registered builder returns (nil: the generic logging codec)
+	mkCodec func(id int, k *c20kind, omit bool, log *c20log) avro.Codec
+}
+
+// CFloat is governed by a codec written the way users write them: a struct that embeds the library's own codec
+// for the wire type and overrides what differs (here the value is negated on the wire).
+type CFloat float64
+
+type c20floatCodec struct {
+	avro.DoubleCodec
+	id   int
+	k    *c20kind
+	omit bool
+	log  *c20log
+}
+
+func (c c20floatCodec) Read(r *avro.ReadBuf, p unsafe.Pointer) error {
+	c.log.reads[c.id]++
+	var w float64
+	err := c.DoubleCodec.Read(r, unsafe.Pointer(&w))
+	*(*CFloat)(p) = CFloat(-w)
+	return err
+}
+func (c c20floatCodec) Skip(r *avro.ReadBuf) error { c.log.skips[c.id]++; return c.DoubleCodec.Skip(r) }
+func (c c20floatCodec) New(r *avro.ReadBuf) unsafe.Pointer {
+	c.log.news[c.id]++
+	return r.Alloc(c.k.rt)
+}
+func (c c20floatCodec) Omit(p unsafe.Pointer) bool {
+	c.log.omits[c.id]++
+	return c.omit && *(*CFloat)(p) == 0
+}
+func (c c20floatCodec) Write(w *avro.WriteBuf, p unsafe.Pointer) {
+	c.log.writes[c.id]++
+	v := -float64(*(*CFloat)(p))
+	c.DoubleCodec.Write(w, unsafe.Pointer(&v))
 }
 
 func readLong(r *avro.ReadBuf) (int64, error) {
@@ -135,6 +172,26 @@ func c20kinds() []*c20kind {
 				return err
 			},
 			skip: func(r *avro.ReadBuf) error { return avro.Int64Codec{}.Skip(r) }, session: c20sess[CInt](), holder: reflect.TypeOf(holder[CInt]{})},
+		{name: "CFloat", rt: reflect.TypeOf(CFloat(0)), schema: `"double"`, stype: "double",
+			gen: func(r *rand.Rand) reflect.Value {
+				return reflect.ValueOf(CFloat(float64(r.IntN(9)-3) + 0.25*float64(r.IntN(4))))
+			},
+			isZero:  func(v reflect.Value) bool { return v.Float() == 0 },
+			toDatum: func(v reflect.Value) any { return -v.Float() },
+			write: func(w *avro.WriteBuf, p unsafe.Pointer) {
+				v := -float64(*(*CFloat)(p))
+				avro.DoubleCodec{}.Write(w, unsafe.Pointer(&v))
+			},
+			read: func(r *avro.ReadBuf, p unsafe.Pointer) error {
+				var w float64
+				err := avro.DoubleCodec{}.Read(r, unsafe.Pointer(&w))
+				*(*CFloat)(p) = CFloat(-w)
+				return err
+			},
+			skip: func(r *avro.ReadBuf) error { return avro.DoubleCodec{}.Skip(r) }, session: c20sess[CFloat](), holder: reflect.TypeOf(holder[CFloat]{}),
+			mkCodec: func(id int, k *c20kind, omit bool, log *c20log) avro.Codec {
+				return c20floatCodec{id: id, k: k, omit: omit, log: log}
+			}},
 		{name: "CStr", rt: reflect.TypeOf(CStr("")), schema: `"string"`, stype: "string",
 			gen:     func(r *rand.Rand) reflect.Value { return reflect.ValueOf(CStr([]string{"", "a", "hello"}[r.IntN(3)])) },
 			isZero:  func(v reflect.Value) bool { return v.String() == "" },
@@ -388,6 +445,9 @@ func c20register(k *c20kind, id int) {
 			return nil, fmt.Errorf("custom builder for %s invoked for type %s", k.name, typ)
 		}
 		c20curLog.builds[id]++
+		if k.mkCodec != nil {
+			return k.mkCodec(id, k, omit, c20curLog), nil
+		}
 		return &c20codec{id: id, k: k, omit: omit, log: c20curLog}, nil
 	})
 }
@@ -887,6 +947,25 @@ func runC20(c *core.Ctx, i int) {
 			return
 		}
 	}
+	// the same records framed the way other writers frame them (arrays and maps in several blocks, with byte sizes):
+	// the custom codecs still govern their type
+	if ff, err := refavro.WriteContainer([]byte(cont.SchemaJSON), cont.Schema, [][]any{recs}, &gen.RandChooser{R: r, Style: 1 + r.IntN(3)}, refavro.WriteOpts{Codec: []string{"null", "deflate", "snappy"}[r.IntN(3)]}); err == nil {
+		got2, rerr := lib.ReadAll(ff, k.holder, false)
+		if rerr != nil || len(got2) != n {
+			c.Violate("read", fmt.Sprintf("%s: the same records re-framed by another writer: ReadFile err=%v, %d of %d records", k.name, rerr, len(got2), n), rep)
+			return
+		}
+		for j := range got2 {
+			if d := c20equal(vals[j], got2[j], fmt.Sprintf("rec[%d]", j)); d != "" {
+				c.Violate("roundtrip", fmt.Sprintf("%s: the same records re-framed by another writer (sized / split array and map blocks): %s", k.name, d), rep)
+				return
+			}
+		}
+		c.Count("reframed-files-read", 1)
+	} else {
+		c.Violate("harness", "re-framing: "+err.Error(), nil)
+		return
+	}
 	if log.reads[latest] < m.writes {
 		c.Violate("read-invocations", fmt.Sprintf("%s: custom Read invoked %d times for %d non-null occurrences", k.name, log.reads[latest], m.writes), rep)
 		return
@@ -934,7 +1013,7 @@ func init() {
 		Run:      runC20,
 		Floors: func(a *core.Agg) []string {
 			var u []string
-			for _, k := range []string{"CInt", "CStr", "CSlice", "CBytes", "CStruct", "CNullable", "CStructStr"} {
+			for _, k := range []string{"CInt", "CFloat", "CStr", "CSlice", "CBytes", "CStruct", "CNullable", "CStructStr"} {
 				if a.C("kind."+k) < 50 {
 					u = append(u, fmt.Sprintf("kind.%s=%d < 50", k, a.C("kind."+k)))
 				}
